@@ -532,6 +532,52 @@ mod imp {
         json!({"resolved": v})
     }
 
+    pub fn serde_mode(input: &Value) -> Value {
+        use rscel::Program;
+        let mut out = Vec::new();
+        for src in input["sources"].as_array().cloned().unwrap_or_default() {
+            let src = src.as_str().unwrap_or("").to_string();
+            let p = match Program::from_source(&src) {
+                Ok(p) => p,
+                Err(e) => {
+                    out.push(json!({"source": src, "compile_err": format!("{:?}", e)}));
+                    continue;
+                }
+            };
+            let run = |p: &Program| {
+                let mut c = CelContext::new();
+                c.add_program("m", p.clone());
+                let mut b = BindContext::new();
+                b.bind_param("x", CelValue::from_int(3));
+                guarded(|| outcome(c.exec("m", &b)))
+            };
+            let orig = run(&p);
+            let same = |a: &Value, b: &Value| (a.get("ok").is_some() && a.get("ok") == b.get("ok")) || (a.get("err").is_some() && a.get("err") == b.get("err"));
+            let bin = match bincode::serialize(&p) {
+                Err(e) => json!({"status": "serialize_failed", "msg": format!("{:?}", e)}),
+                Ok(bytes) => match bincode::deserialize::<Program>(&bytes) {
+                    Err(e) => json!({"status": "deserialize_failed", "msg": format!("{:?}", e)}),
+                    Ok(q) => {
+                        let back = run(&q);
+                        if same(&orig, &back) { json!({"status": "ok"}) } else { json!({"status": "differs", "orig": orig.clone(), "back": back}) }
+                    }
+                },
+            };
+            let js = match serde_json::to_string(&p) {
+                Err(e) => json!({"status": "serialize_failed", "msg": format!("{:?}", e)}),
+                Ok(t) => match serde_json::from_str::<Program>(&t) {
+                    Err(e) => json!({"status": "deserialize_failed", "msg": format!("{:?}", e)}),
+                    Ok(q) => {
+                        let back = run(&q);
+                        if same(&orig, &back) { json!({"status": "ok"}) } else { json!({"status": "differs", "orig": orig.clone(), "back": back}) }
+                    }
+                },
+            };
+            out.push(json!({"source": src, "bincode": bin, "json": js}));
+        }
+        json!({"round_trips": out})
+    }
+
     pub fn main() {
         let mode = std::env::args().nth(1).unwrap_or_default();
         let mut s = String::new();
@@ -545,6 +591,7 @@ mod imp {
                     "eval" => eval_mode(&v),
                     "vm" => guarded(|| vm_mode(&v)),
                     "resolve" => guarded(|| resolve_mode(&v)),
+                    "serde" => guarded(|| serde_mode(&v)),
                     _ => json!({"error": "mode"}),
                 }
             })
